@@ -277,6 +277,9 @@ def msg_class(msg):
     """Message with identifiers and literals blanked (bucket key)."""
     import re
     m = re.sub(r'\x1b\[[0-9;]*m', '', msg)
+    for phrase, slug in STABLE_PHRASES:
+        if phrase in m:
+            return slug
     m = re.sub(r'"[^"]*"|\'[^\']*\'', 'Q', m)
     m = re.sub(r'\b[A-Za-z_][A-Za-z0-9_]*\b',
                lambda g: g.group(0) if g.group(0).lower() in KEEP else 'w', m)
@@ -284,6 +287,8 @@ def msg_class(msg):
     m = re.sub(r'(w[ ,]*)+', 'w ', m)
     return m[:80]
 
+
+STABLE_PHRASES = (('Signature differs for bodies', 'signature_differs_for_bodies'),)
 
 KEEP = {'circular', 'dependency', 'in', 'calls', 'found', 'no', 'way', 'to', 'assign',
         'variables', 'unmatched', 'could', 'not', 'parse', 'predicate', 'distinct',
